@@ -1,6 +1,7 @@
 /- driver handlers: worker count (C05 / C06) -/
 import YawVerif.Model.Proto
 import YawVerif.Generated.Glue
+import YawVerif.Model.PathCodec
 
 open Yaw Yaw.Proto Yaw.Gen
 
@@ -14,6 +15,10 @@ def optInt : R (Option Int) := do
 def handler (kind : String) : R String :=
   match kind with
   | "getsize" => do let mw ← optInt; let size ← int; pure (toString (getSize mw size))
+  | "pathname" => do let k ← nat; pure (String.ofList (Yaw.PathCodec.pathName k))
+  | "idof" => do
+      let name ← tok
+      pure (match Yaw.PathCodec.idOfName name.toList with | some k => toString k | none => "raise")
   | "numproc" => do let env ← optInt; let cores ← int; pure (toString (numProcesses env cores))
   | _ => throw s!"unknown kind {kind}"
 
